@@ -846,8 +846,12 @@ impl<A: Zeroize + NewBytes + ResizableBytes + Lockable<A>> NewLockedFromSlice<A>
     fn from_slice_into_locked(
         src: &[u8],
     ) -> Result<Protected<Self, traits::ReadWrite, traits::Locked>, crate::error::Error> {
-        let mut res = Self::new_bytes().mlock()?;
-        res.resize(src.len(), 0);
+        // size the region before locking it: resizing an already locked region
+        // goes through a copy that panics if the lock is refused, whereas a
+        // refused lock here is reported to the caller
+        let mut bytes = Self::new_bytes();
+        bytes.resize(src.len(), 0);
+        let mut res = bytes.mlock()?;
         res.as_mut_slice().copy_from_slice(src);
         Ok(res)
     }
